@@ -37,6 +37,19 @@ def cases(rng, tier):
         if k and rng.random() < 0.5:
             e2 = bracket(rng, gates)
             cs.append({"kind": "applyraw", "n": n, "raw": gen.random_state(rng, n), "e": e2, "threads": rng.choice([1, 1, 2, 3])})
+    # more workers than the register has cells (0-3 qubits under 9-16 workers), and every other worker count: short products
+    import os
+    wide = [k for k in (9, 11, 12, 16) if k <= (os.cpu_count() or 4)] or [2]
+    for _ in range(40 if tier == "quick" else 1000):
+        n = rng.randint(0, 3)
+        gates = [gen.random_gate(rng, n, allow_empty=False) for _ in range(rng.randint(2, 5))]
+        w = rng.choice(wide + [8, 5])
+        if w > (os.cpu_count() or 4):
+            w = 2
+        if rng.random() < 0.5:
+            cs.append({"kind": "applybasis", "n": n, "j": rng.randrange(1 << n), "e": bracket(rng, gates), "threads": w})
+        else:
+            cs.append({"kind": "applyraw", "n": n, "raw": gen.random_state(rng, n), "e": bracket(rng, gates), "threads": w})
     # registers of 11-13 qubits (beyond any block size a kernel might work in; too large for the model's buffers):
     # products of one-qubit gates on the high qubits mixed with gates on the low ones, as one product against factor by
     # factor, on basis states with the high qubits set
